@@ -1124,6 +1124,11 @@ impl Prop for C13 {
         if rng.chance(1, 30) {
             return gen_huge_case(rng);
         }
+        // thorough only (each costs the model a few seconds): another many-buffers history with its own order
+        if tier == Tier::Thorough && rng.chance(1, 1000) {
+            let chunks = rng.range(260, 460);
+            return many_chunks_case(rng, chunks).ops;
+        }
         // quick: ~1 in 8 cases is a first-touch race; thorough: 1 in 6
         if rng.chance(1, if tier == Tier::Quick { 8 } else { 6 }) {
             let threads = *rng.pick(&[2u64, 2, 3, 4, 8]);
